@@ -463,15 +463,17 @@ def rewrite_casts(src, lo, hi, edits, stats):
             stats["R19"] = stats.get("R19", 0) + 1
 
 
-def rewrite_for_loops(src, lo, hi, edits, stats, incl_as_iter=False):
+def rewrite_for_loops(src, lo, hi, edits, stats, incl_as_iter=False, name_wild=False, range_as_while=False):
     """R4: `for PAT in EXPR { BODY }` over a non-range iterator =>
            `{ let mut __itK = EXPR; loop <spec> { match __itK.next() { Some(PAT) => { BODY } None => break, } } }`
        (the language definition of `for`).  Must be called AFTER the loop specs have been spliced so that they end up
        between `loop` and the new body."""
     toks = src.toks
     k = 0
+    nloop = 0          # ordinal among ALL loops of the function (the numbering of @loop)
     for L in src.loops_in(lo, hi):
         if L["kind"] != "for":
+            nloop += 1
             continue
         kw, bo, bc = L["kw"], L["body_open"], L["body_close"]
         # find `in` at depth 0
@@ -501,13 +503,36 @@ def rewrite_for_loops(src, lo, hi, edits, stats, incl_as_iter=False):
                 d -= 1
             elif x.text == "." and d == 0 and toks[j + 1].text == "." and toks[j + 1].start == x.end:
                 is_range = True
+                dots = j
+                is_incl = toks[j + 2].text == "=" and toks[j + 2].start == toks[j + 1].end
                 # `a..=b`: Verus' for-loop support covers half-open ranges; an inclusive range is treated as the iterator it is
                 # (R4 applies; the template instantiates it with a stand-in, R8) when the directive asks for it
                 if incl_as_iter and toks[j + 2].text == "=" and toks[j + 2].start == toks[j + 1].end:
                     is_range = False
                     break
-        if is_range:
+        if is_range and range_as_while and not is_incl:
+            # R4c: `for PAT in A..B { BODY }` => `{ let mut __cK = A; let __eK = B; while __cK < __eK <spec> { let PAT = __cK;
+            # __cK = __cK + 1; BODY } }` - the definition of iterating a half-open integer range (Range::next yields `start` and
+            # advances it while start < end).  Used where the body contains `continue`, which Verus' own for-loop support rejects.
+            pat = src.text[toks[kw + 1].start:toks[pos_in - 1].end]
+            c, e = f"__c{nloop}", f"__e{nloop}"
+            edits.add(toks[kw].start, toks[pos_in].end, "{ let mut " + c + " =", "R4c", f"for {pat} in a..b => while")
+            edits.add(toks[dots].start, toks[dots + 1].end, "; let " + e + " =", "R4c", "")
+            edits.add(toks[bo - 1].end, toks[bo - 1].end, "; while " + c + " < " + e + " ", "R4c", "")
+            edits.add(toks[bo].end, toks[bo].end, " let " + pat + " = " + c + "; " + c + " = " + c + " + 1; ", "R4c", "")
+            edits.add(toks[bc].end, toks[bc].end, " }", "R4c", "")
+            stats["R4c"] = stats.get("R4c", 0) + 1
+            nloop += 1
             continue
+        if is_range:
+            # R4b: `for _ in a..b` -> `for __i<ordinal> in a..b` (the unnamed counter gets a name the loop invariant can speak
+            # about; the body cannot refer to it, so nothing else changes)
+            if name_wild and pos_in == kw + 2 and toks[kw + 1].text == "_":
+                edits.add(toks[kw + 1].start, toks[kw + 1].end, f"__i{nloop}", "R4b", "for _ in range => named counter")
+                stats["R4b"] = stats.get("R4b", 0) + 1
+            nloop += 1
+            continue
+        nloop += 1
         pat = src.text[toks[kw + 1].start:toks[pos_in - 1].end]
         name = f"__it{k}"
         k += 1
@@ -732,7 +757,7 @@ def gen_fn(repo, d, body, report):
             edits.add(toks[a].start, toks[b].end, sub["args"][1], o.get("rule", "REWRITE"),
                       f"`{sub['args'][0]}` => `{sub['args'][1]}`")
             stats[o.get("rule", "REWRITE")] = stats.get(o.get("rule", "REWRITE"), 0) + 1
-    rewrite_for_loops(src, f["body_open"] + 1, f["body_close"], edits, stats, d.get("incl_ranges") == "1")
+    rewrite_for_loops(src, f["body_open"] + 1, f["body_close"], edits, stats, d.get("incl_ranges") == "1", d.get("for_names") == "1", d.get("range_as_while") == "1")
     for sub in subs:
         if sub["kind"] == "after_loop":
             # ghost text directly after loop k as a whole (structural anchor; added after R4 so that it follows the closers R4 appends)
